@@ -216,6 +216,27 @@ def main():
             shutil.copy(lock_src, lock_dst)
     elif not os.path.exists(lock_dst):
         shutil.copy(os.path.join(repo, "Cargo.lock"), lock_dst)
+    # shuttle workspace: same shadows, cpufeatures seam with shuttle atomics
+    ws2 = os.path.join(build, "ws-shuttle")
+    m = "# GENERATED by /verif/gen/shadows.py - do not edit\n"
+    m += '[package]\nname = "sim-shuttle"\nversion = "0.0.0"\nedition = "2024"\npublish = false\nautobins = false\n\n'
+    m += f'[[bin]]\nname = "sim-shuttle"\npath = {json.dumps(os.path.join(VERIF, "sim-shuttle", "src", "main.rs"))}\ntest = false\n\n'
+    m += "[dependencies]\n"
+    m += 'cipher = "=0.5.0-pre.8"\n'
+    m += 'cpufeatures = { version = "0.2", features = ["shuttle"] }\n'
+    m += 'shuttle = "0.9"\n'
+    for name in ["aes_auto_z", "aes_soft_z"]:
+        m += f'{name} = {{ path = "../shadows/{name}" }}\n'
+    m += "\n[profile.release]\nopt-level = 2\ndebug = 0\npanic = \"unwind\"\n"
+    m += f'\n[patch.crates-io]\ncpufeatures = {{ path = {json.dumps(os.path.join(VERIF, "seam", "cpufeatures"))} }}\n'
+    m += "\n[workspace]\n"
+    write_if_changed(os.path.join(ws2, "Cargo.toml"), m)
+    write_if_changed(os.path.join(ws2, ".cargo", "config.toml"),
+                     f'[net]\noffline = true\n[build]\ntarget-dir = {json.dumps(os.path.join(build, "target-shuttle"))}\n')
+    lock_src = os.path.join(VERIF, "sim-shuttle", "Cargo.lock")
+    lock_dst = os.path.join(ws2, "Cargo.lock")
+    if not os.path.exists(lock_dst):
+        shutil.copy(lock_src if os.path.exists(lock_src) else os.path.join(repo, "Cargo.lock"), lock_dst)
     with open(os.path.join(build, "variants.json"), "w") as f:
         json.dump([{"name": n, "dir": d, "cfgs": c, "features": ft, "transform": t}
                    for (n, d, c, ft, t) in vs], f, indent=1)
